@@ -157,9 +157,28 @@ pub fn gen_intvec<T: Elem>(cx: &mut Ctx, r: &mut Rng, size_class: u32) {
 pub fn full_analysis_case<T: Elem>(cx: &mut Ctx, r: &mut Rng) {
     let n = 10001 + r.below(300) as usize;
     let hi = T::hi(); let lo = T::lo().max(0);
+    let last_block = (n - 1) / 128;
     let mut base = lo;
-    let vals: Vec<T> = (0..n).map(|i| { if i % 128 == 0 { base = lo + (r.next() as u128 % ((hi - lo - 1) as u128)) as i128; } T::from_i128(base + r.below(2) as i128) }).collect();
+    // the short last block carries the largest offsets: the offset width has to come from it
+    let vals: Vec<T> = (0..n).map(|i| { if i % 128 == 0 { base = lo + (r.next() as u128 % ((hi - lo - 3) as u128)) as i128; }
+        T::from_i128(base + if i / 128 == last_block { r.below(4) as i128 } else { r.below(2) as i128 }) }).collect();
     intvec_case::<T>(cx, &vals, "full_analysis_blocks", &[if r.chance(1, 2) { 0 } else { 2 }], 1, r);
+}
+
+/// Fields of 59..63 bits whose last field reaches into the very last byte of the 16-byte aligned buffer through
+/// the ninth byte of its window (n * w = 121..127 mod 128): n = 71 for w = 63, and the like.
+pub fn tight_tail_case<T: Elem>(cx: &mut Ctx, r: &mut Rng, coq: u64) {
+    if T::BITS < 64 { return; }
+    let w = 59 + r.below(5) as u32;
+    let cands: Vec<usize> = (4..300usize).filter(|n| { let m = (n * w as usize) % 128; m >= 121 }).collect();
+    let n = *r.pick(&cands);
+    let lo = T::lo(); let top: i128 = 1i128 << (w - 1);
+    // range exactly w bits: the minimum and a value with bit w-1 set are present, the last element has its top bit set
+    let base = if T::SIGNED { lo } else { r.below(1000) as i128 };
+    let mut vals: Vec<T> = (0..n).map(|_| T::from_i128(base + (r.next() as u128 % (top as u128 * 2)) as i128)).collect();
+    vals[0] = T::from_i128(base); vals[1] = T::from_i128(base + 1); vals[2] = T::from_i128(base);
+    vals[n - 1] = T::from_i128(base + top + (r.next() as u128 % (top as u128)) as i128);
+    intvec_case::<T>(cx, &vals, "tight_tail", &[0, 2], coq, r);
 }
 
 /// Enumerated: every sequence of length <= 4 over {0, 1, MAX-1, MAX, MIN} of the type.
